@@ -348,7 +348,10 @@ def main(argv):
         # (bound 3 for all three styles and bound 2 for two styles at T=3 took the tier to 22 min)
         for T, bound, styles in [(1, 0, ["stream"]), (2, 3, ["stream"]), (2, 2, ["pretty", "compact"]), (3, 2, ["stream"]), (3, 1, ["pretty"])]:
             for style in styles:
-                configs.append((base_files + ["d.js"], [], T, style, bound, False))
+                # (the two deepest bounds run without the finding-less d.js: with c.html's three documents
+                # they alone were 87 000 of 145 000 schedules and took the tier to 20 min)
+                deepest = (T, bound) in ((2, 3), (3, 2))
+                configs.append((base_files + ([] if deepest else ["d.js"]), [], T, style, bound, False))
         for k in range(0, len(fault_files) + 1):
             for sub in itertools.combinations(fault_files, k):
                 configs.append((base_files + list(sub), ["g.js"] if "g.js" in sub else [], 2, "stream", 2, False))
